@@ -266,7 +266,9 @@ func (g *G) primary() bool {
 	case 15:
 		g.kw("EXTRACT")
 		g.p("(")
-		g.pk([]string{"DAY", "YEAR", "DATE"}[g.alt(3)])
+		// the date part is stored as an identifier: its spelling is significant
+		part := []string{"DAY", "YEAR", "DATE"}[g.alt(3)]
+		g.emit(Tok{Text: part, Class: ID, Val: part})
 		g.kw("FROM")
 		g.Expr()
 		if g.opt() {
@@ -446,7 +448,8 @@ func (g *G) call() {
 		g.p(",")
 		g.kw("INTERVAL")
 		g.Expr()
-		g.pk([]string{"DAY", "HOUR"}[g.alt(2)])
+		unit := []string{"DAY", "HOUR"}[g.alt(2)]
+		g.emit(Tok{Text: unit, Class: ID, Val: unit})
 	case 5:
 		g.pk("SEQUENCE")
 		g.id()
